@@ -1106,7 +1106,8 @@ func (g *G) helper(name string) ([3]string, error) {
 	coq := "gen_h_" + name
 	entry := [3]string{coq, "cis", ""}
 	if g.noCis {
-		entry[1] = ""
+		coq = "gen_hn_" + name
+		entry = [3]string{coq, "", ""}
 	}
 	if fd.Type.Results == nil || len(fd.Type.Results.List) != 1 {
 		return entry, fmt.Errorf("helper %s: unsupported result list", name)
@@ -1128,7 +1129,7 @@ func (g *G) helper(name string) ([3]string, error) {
 			return entry, fmt.Errorf("helper %s: unsupported result type %s", name, rt)
 		}
 	}
-	if g.done[name] {
+	if g.done[coq] {
 		return entry, nil
 	}
 	if g.stack[name] {
@@ -1140,7 +1141,7 @@ func (g *G) helper(name string) ([3]string, error) {
 	if err != nil {
 		return entry, err
 	}
-	g.done[name] = true
+	g.done[coq] = true
 	g.defs = append(g.defs, def+"#[global] Hint Unfold "+coq+" : genhelpers.\n")
 	return entry, nil
 }
@@ -1189,11 +1190,14 @@ func (t *T) assigned(b *ast.BlockStmt) []string {
 	return out
 }
 
-func translate(p *tr.Pkg, cfg *fnCfg) (string, error) {
-	g := &G{p: p, done: map[string]bool{}, stack: map[string]bool{}, noCis: cfg.noCis}
+// translate renders one function; helpers already emitted for the same package (shared G) are reused.
+func translate(g *G, cfg *fnCfg) (string, error) {
+	g.noCis = cfg.noCis
+	g.defs = nil
 	def, err := translateIn(g, cfg)
 	if err != nil {
-		return "", err
+		// helpers completed on the way stay defined in the output only if they are emitted now
+		return strings.Join(g.defs, "\n"), err
 	}
 	return strings.Join(g.defs, "\n") + def, nil
 }
@@ -1764,8 +1768,9 @@ func main() {
 		"Definition filter_app (f : option (Z -> bool)) (x : Z) : bool := match f with Some g => g x | None => false end.\n\n")
 	failed := 0
 	emitP := func(p *tr.Pkg, fns []*fnCfg) *tr.Pkg {
+		g := &G{p: p, done: map[string]bool{}, stack: map[string]bool{}}
 		for _, f := range fns {
-			s, err := translate(p, f)
+			s, err := translate(g, f)
 			if f.chk && f.optRes && !f.noCis {
 				args := func(c *fnCfg) string {
 					var out []string
@@ -1780,13 +1785,18 @@ func main() {
 				} else {
 					f2 := *f
 					f2.partial, f2.name, f2.result = true, f.name+"_chk", "res ("+f.result+")"
-					if s2, err2 := translate(p, &f2); err2 == nil {
+					s2, err2 := translate(g, &f2)
+					s2 = s + s2 // helpers completed by the first attempt
+					if err2 != nil {
+						s = s2
+					} else {
 						s, err = s2+fmt.Sprintf("Definition %s (cis : Z) %s : %s :=\n  match %s cis %s with Ok r_ => r_ | Err _ => None end.\n",
 							f.name, strings.Join(f2.binders, " "), f.result, f2.name, args(&f2)), nil
 					}
 				}
 			}
 			if err != nil {
+				text.WriteString(s) // helpers that were completed before the failure (marked done)
 				fmt.Fprintf(&text, "(* NOT TRANSLATED %s: %v *)\n\n", f.key, err)
 				fmt.Fprintf(os.Stderr, "translator annotate: %s: %v\n", f.key, err)
 				failed++
